@@ -259,7 +259,14 @@ func (w *World) isKnown(prop, id string) bool {
 	return false
 }
 
-const repoDir = "/repo"
+// repoDir is the tree under analysis: /repo, or a scratch copy of it when GOSYM_REPO is set (used only by
+// tools/seedcheck.sh to run a check against a seeded change without touching /repo).
+var repoDir = func() string {
+	if d := os.Getenv("GOSYM_REPO"); d != "" {
+		return d
+	}
+	return "/repo"
+}()
 
 func init() {
 	if !strings.HasPrefix(os.Getenv("PATH"), "/opt/veriftools/go1.26.8/bin") {
